@@ -742,6 +742,26 @@ def rule_loop_typestate(res, rid, m):
     # when whole protocol cases cannot be found the classification has lost the code's structure: nothing below would be believable
     missing0 = set(EXPECT_LAST) - {classify(p) for p in ps}
     if missing0:
+        # readable but wrong?  A path on which the message is known to be a first segment hands it to addSegment, or one on which it is
+        # known to be a continuation builds a new entry from it: the roles of first and continuation segments are exchanged
+        swapped = []
+        for p in ps:
+            lab = seg_labels(m.fb, p)
+            if lab["segmented"] is not True:
+                continue
+            adds = list(p.calls(SEG + "::addSegment"))
+            news = list(p.calls(SEG + "::SegmentedPacket"))
+            if lab["first"] is True and adds:
+                swapped.append((adds[0], "a first segment is handed to addSegment (appended to whatever the endpoint has pending) instead of opening a new message"))
+            if lab["first"] is False and news and not adds:
+                swapped.append((news[0], "a continuation segment opens a new reassembly entry instead of being appended to the pending message"))
+        if swapped:
+            seen_sw = set()
+            for c, text in swapped:
+                if text not in seen_sw:
+                    seen_sw.add(text)
+                    res.bad(rid, "path:roles-exchanged:%s" % ("first" if "first segment is" in text else "continuation"), c.get("loc"), text)
+            return len(seen_sw)
         raise Broken("decode loop: protocol cases without a path: %s" % sorted(missing0))
     for p in ps:
         cls = classify(p)
@@ -1008,6 +1028,9 @@ def rule_declared_length(res, rid, m):
     n = 0
     GPL = MH + "::getPayloadLength"
     for f in (m.ctor, m.addSegment):
+        if not copies_into(f, m.buffer):
+            res.bad(rid, "%s:stores-the-segment" % f.name.split("::")[-1], f.loc, "%s sizes the reassembly buffer but never copies the segment's bytes into it: "
+                    "the delivered payload is zeros where this segment's bytes belong" % f.name)
         for c, dst, src, ln in copies_into(f, m.buffer):
             n += 1
             decls, calls = depends(f, ln)
@@ -1034,6 +1057,10 @@ def rule_declared_length(res, rid, m):
                       "the segment's declared length in its frame enter the message" % (canon(ln), "; ".join(detail))
             res.check(ok, rid, "%s:copy-length" % f.name.split("::")[-1], c.get("loc"), why, why)
     return n
+
+
+class NoAcceptingPath(Broken):
+    pass
 
 
 def entry_writes(m):
@@ -1117,7 +1144,7 @@ def accepting_paths(m):
         ws = [(wids[x["id"]], x) for _, x in p.elems() if x["id"] in wids]
         out.append((p, r, ws))
     if not out:
-        raise Broken("addSegment has no accepting path")
+        raise NoAcceptingPath("addSegment has no accepting path")
     return out
 
 
@@ -1144,7 +1171,12 @@ def rule_accept_guard(res, rid, m):
         raise Broken("SegmentedPacket: cannot bind stored version/type/counter/state members: %s" % role)
     m.roles = role
     params = {p["decl"] for p in f.params}
-    aps = accepting_paths(m)
+    try:
+        aps = accepting_paths(m)
+    except NoAcceptingPath:
+        res.bad(rid, "addSegment:accepts", f.loc, "no path through addSegment returns true: every continuation segment is rejected and no segmented "
+                "message is ever completed")
+        raise
     for pi, (p, r, ws) in enumerate(aps):
         tag = "" if len(aps) == 1 else "#%d" % (pi + 1)
         atoms = p.atoms
@@ -1530,6 +1562,30 @@ def rule_reject_reasons(res, rid, m):
                     key = "reject:%s-mismatch" % what.replace(" ", "-")
             if key is None and ((GPL in cl and set(sizep) & dr) or (GPL in cr and set(sizep) & dl)) and m.buffer not in (dl | dr):
                 key = "reject:length-exceeds-frame"
+                # exactly the protocol's reason: rejected only when header + declared payload do not fit, `size - length < 16`
+                hdr0 = m.fb.record(MH)["size"]
+
+                def syms0(x):
+                    if x.get("k") == "call" and callee_name(x) == GPL:
+                        return "L"
+                    if x.get("k") == "ref" and x.get("decl") in sizep:
+                        return "n"
+                    return None
+                L0, R0 = _linear(f, facts.inline_accessors(m.fb, a[4]), syms0), _linear(f, facts.inline_accessors(m.fb, a[5]), syms0)
+                if L0 is not None and R0 is not None and a[2] in ("<", "<=", ">", ">="):
+                    d0 = dict(L0)
+                    for k2, v2 in R0.items():
+                        d0[k2] = d0.get(k2, 0) - v2
+                    op0 = a[2]
+                    if d0.get("n", 0) < 0:  # bring to the form  n - L + c  op  0
+                        d0 = {k2: -v2 for k2, v2 in d0.items()}
+                        op0 = {"<": ">", "<=": ">=", ">": "<", ">=": "<="}[op0]
+                    if d0.get("n") == 1 and d0.get("L") == -1 and set(d0) <= {"n", "L", 1} and op0 in ("<", "<="):
+                        # rejects when n - L < K
+                        K0 = -d0.get(1, 0) + (1 if op0 == "<=" else 0)
+                        if K0 > hdr0:
+                            why = "a continuation is rejected when `size - declared length < %d`: a segment whose header and payload fill the rest of the " \
+                                  "frame exactly (size - length = %d) is legal and is dropped" % (K0, hdr0)
             if key is None and m.buffer in (dl | dr):
                 # a limit on the reassembled size: linear form over buffer size and new payload length
                 def syms(x):
